@@ -41,6 +41,9 @@ var (
 	budgetNs  atomic.Int64
 	memLimit  atomic.Int64
 	peakHeap  atomic.Int64
+
+	defaultBudgetNs int64
+	budgetScale     int64 = 1
 )
 
 func watchdog() {
@@ -90,6 +93,7 @@ type common struct {
 	skip     int
 	budgetMs int
 	memMb    int
+	scale    int
 }
 
 func (c *common) register(fs *flag.FlagSet) {
@@ -98,6 +102,7 @@ func (c *common) register(fs *flag.FlagSet) {
 	fs.IntVar(&c.skip, "skip", 0, "number of leading cases to skip")
 	fs.IntVar(&c.budgetMs, "budgetms", 10000, "wall-clock budget per case")
 	fs.IntVar(&c.memMb, "memmb", 1024, "heap budget")
+	fs.IntVar(&c.scale, "budgetscale", 1, "multiplier applied to every wall-clock budget (re-run of a single overrunning case)")
 }
 
 func (c *common) open() (*bufio.Scanner, *bufio.Writer, func()) {
@@ -114,7 +119,9 @@ func (c *common) open() (*bufio.Scanner, *bufio.Writer, func()) {
 	sc := bufio.NewScanner(in)
 	sc.Buffer(make([]byte, 1<<20), 1<<26)
 	w := bufio.NewWriterSize(out, 1<<20)
-	budgetNs.Store(int64(c.budgetMs) * int64(time.Millisecond))
+	budgetScale = int64(max(1, c.scale))
+	defaultBudgetNs = int64(c.budgetMs) * int64(time.Millisecond) * budgetScale
+	budgetNs.Store(defaultBudgetNs)
 	memLimit.Store(int64(c.memMb) << 20)
 	curCase.Store(-1)
 	go watchdog()
